@@ -43,12 +43,12 @@ fn gh_classic_keyed(p: &[&[u8]], k: &Keys) -> Vec<u8> {
     for c in p {
         crypto_generichash_update(&mut st, c);
     }
-    let mut out = vec![0u8; 32];
+    let mut out = stale(32);
     crypto_generichash_final(st, &mut out).unwrap();
     out
 }
 fn gh_classic_keyed_1(m: &[u8], k: &Keys) -> Vec<u8> {
-    let mut out = vec![0u8; 32];
+    let mut out = stale(32);
     crypto_generichash(&mut out, m, Some(&k.k32)).unwrap();
     out
 }
@@ -57,12 +57,12 @@ fn gh_classic_plain(p: &[&[u8]], _k: &Keys) -> Vec<u8> {
     for c in p {
         crypto_generichash_update(&mut st, c);
     }
-    let mut out = vec![0u8; 64];
+    let mut out = stale(64);
     crypto_generichash_final(st, &mut out).unwrap();
     out
 }
 fn gh_classic_plain_1(m: &[u8], _k: &Keys) -> Vec<u8> {
-    let mut out = vec![0u8; 64];
+    let mut out = stale(64);
     crypto_generichash(&mut out, m, None).unwrap();
     out
 }
@@ -81,12 +81,12 @@ fn auth_classic(p: &[&[u8]], k: &Keys) -> Vec<u8> {
     for c in p {
         crypto_auth_update(&mut st, c);
     }
-    let mut out = [0u8; 32];
+    let mut out = stale_arr::<32>();
     crypto_auth_final(st, &mut out);
     out.to_vec()
 }
 fn auth_1(m: &[u8], k: &Keys) -> Vec<u8> {
-    let mut out = [0u8; 32];
+    let mut out = stale_arr::<32>();
     crypto_auth(&mut out, m, &k.k32);
     out.to_vec()
 }
@@ -102,12 +102,12 @@ fn ota_classic(p: &[&[u8]], k: &Keys) -> Vec<u8> {
     for c in p {
         crypto_onetimeauth_update(&mut st, c);
     }
-    let mut out = [0u8; 16];
+    let mut out = stale_arr::<16>();
     crypto_onetimeauth_final(st, &mut out);
     out.to_vec()
 }
 fn ota_1(m: &[u8], k: &Keys) -> Vec<u8> {
-    let mut out = [0u8; 16];
+    let mut out = stale_arr::<16>();
     crypto_onetimeauth(&mut out, m, &k.k32);
     out.to_vec()
 }
@@ -123,12 +123,12 @@ fn sha_classic(p: &[&[u8]], _k: &Keys) -> Vec<u8> {
     for c in p {
         crypto_hash_sha512_update(&mut st, c);
     }
-    let mut out = [0u8; 64];
+    let mut out = stale_arr::<64>();
     crypto_hash_sha512_final(st, &mut out);
     out.to_vec()
 }
 fn sha_1(m: &[u8], _k: &Keys) -> Vec<u8> {
-    let mut out = [0u8; 64];
+    let mut out = stale_arr::<64>();
     crypto_hash_sha512(&mut out, m);
     out.to_vec()
 }
@@ -145,7 +145,7 @@ fn sign_classic(p: &[&[u8]], k: &Keys) -> Vec<u8> {
     for c in p {
         crypto_sign_update(&mut st, c);
     }
-    let mut sig = [0u8; 64];
+    let mut sig = stale_arr::<64>();
     crypto_sign_final_create(st, &mut sig, &k.sk).unwrap();
     let mut st = crypto_sign_init();
     for c in p {
@@ -289,14 +289,14 @@ fn param_agreement(cx: &mut Ctx, keys: &Keys, idx: &mut u64) {
                 let cut = rng.range(0, ml);
                 let case = || json!({"iface":"crypto_generichash","keylen":kl,"outlen":ol,"len":ml,"cut":cut});
                 let one = call(cx, "C08|crypto_generichash(params)", "crypto_generichash", case, || {
-                    let mut out = vec![0u8; ol];
+                    let mut out = stale(ol);
                     crypto_generichash(&mut out, &msg, key.as_deref()).map(|_| out).map_err(|e| e.to_string())
                 });
                 let inc = call(cx, "C08|crypto_generichash(params)", "crypto_generichash_init/update/final", case, || {
                     let mut st = crypto_generichash_init(key.as_deref(), ol).map_err(|e| e.to_string())?;
                     crypto_generichash_update(&mut st, &msg[..cut]);
                     crypto_generichash_update(&mut st, &msg[cut..]);
-                    let mut out = vec![0u8; ol];
+                    let mut out = stale(ol);
                     crypto_generichash_final(st, &mut out).map(|_| out).map_err(|e| e.to_string())
                 });
                 let (Some(one), Some(inc)) = (one, inc) else { continue };
@@ -322,9 +322,9 @@ fn param_agreement(cx: &mut Ctx, keys: &Keys, idx: &mut u64) {
         let mut rng = cx.rng.fork(*idx);
         let msg = rng.bytes(ml);
         let cut = rng.range(0, ml);
-        let mut mac32 = [0u8; 32];
+        let mut mac32 = stale_arr::<32>();
         crypto_auth(&mut mac32, &msg, &keys.k32);
-        let mut mac16 = [0u8; 16];
+        let mut mac16 = stale_arr::<16>();
         crypto_onetimeauth(&mut mac16, &msg, &keys.k32);
         for wrong in [false, true] {
             let mut m32 = mac32;
